@@ -1113,8 +1113,13 @@ fn oracle_c10(o: &mut Out, id: &str, ops: &[Op], fresh: Uuid) {
                 if !w.iter().all(|x| reg4.contains(x)) {
                     bad.push("a registry item changed across recycle".to_string());
                 }
-                if !refused && !uuids.contains(&fresh) && reg4.len() != w.len() + 1 {
-                    bad.push(format!("registry has {} entries after adding one fresh type to {}", reg4.len(), w.len()));
+                // every UUID type that was registered, plus the ones added now (some adds of `ops` may have been refused)
+                let mut all: BTreeSet<Vec<i32>> = w.iter().map(|x| x.2.clone()).collect();
+                for u in uuids.iter().chain(std::iter::once(&fresh)) {
+                    all.insert(u.as_bytes().chunks(4).map(|c| i32::from_be_bytes([c[0], c[1], c[2], c[3]])).collect());
+                }
+                if !refused && reg4.len() != all.len() {
+                    bad.push(format!("registry has {} entries, {} UUID types are known", reg4.len(), all.len()));
                 }
             }
             let ids: BTreeSet<u16> = reg4.iter().map(|x| x.1).collect();
